@@ -29,6 +29,7 @@
 (*   <<"cmp", f, t, u>> truth value of Go's comparison f of (t, u)         *)
 (*   <<"b", t>>        truth value t as 1/0 of the element type            *)
 (*   <<"clamp", t, lo, hi>>                                                *)
+(*   <<"arg", f, <<t...>>>> first index of the maximum / minimum           *)
 (* The harness evaluates a term with Go's own operator of the element      *)
 (* type; Interp.tla evaluates it over the integers.                        *)
 (***************************************************************************)
@@ -387,6 +388,182 @@ UnaryT(S, h, f, mode, d, lo, hi) ==
     IN Deliver(S, t.shape, t.ord, vals, mode, d, h, "", mode = "reuse" /\ d = h)
 
 (***************************************************************************)
+(* Reductions.  axes: a sequence of distinct 0-based axes in any order.    *)
+(* The value at an outer position is the left fold of the fibre's elements *)
+(* in logical order; all axes (or none listed) reduce to a scalar.         *)
+(***************************************************************************)
+ValidAxes(axes, r) == /\ \A i \in 1..Len(axes) : axes[i] >= 0 /\ axes[i] < r
+                      /\ \A i, j \in 1..Len(axes) : i # j => axes[i] # axes[j]
+
+ReduceT(S, h, f, axes) ==
+    LET t == S.live[h]
+        r == Len(t.shape)
+        A == IF axes = <<>> THEN 1..r ELSE {axes[i] + 1 : i \in 1..Len(axes)}
+        osh == ReducedShape(t.shape, A)
+        vals == [k \in 1..Prod(osh) |->
+                   <<"fold", f, ValuesOf(S, Fibre(t.shape, t.cells, A, k - 1))>>]
+    IN IF ~ValidAxes(axes, r) THEN Free(S)
+       ELSE LET o == FreshResult(S, osh, "C", vals, "")
+            IN Out(o.S, [o.res EXCEPT !.ref = TRUE])        \* an unsupported layout may be refused
+
+(* arg-reductions: the first index of the extreme along the axis; axis -1: of the whole logical array *)
+ArgT(S, h, f, axis) ==
+    LET t == S.live[h]
+        r == Len(t.shape)
+        A == IF axis = -1 THEN 1..r ELSE {axis + 1}
+        osh == ReducedShape(t.shape, A)
+        vals == [k \in 1..Prod(osh) |->
+                   <<"arg", f, ValuesOf(S, Fibre(t.shape, t.cells, A, k - 1))>>]
+    IN IF axis < -1 \/ axis >= r THEN Free(S)
+       ELSE LET o == FreshResult(S, osh, "C", vals, "int")
+            IN Out(o.S, [o.res EXCEPT !.ref = TRUE])
+
+(***************************************************************************)
+(* Products: every element of the result is a sum of products over the     *)
+(* contracted indices.  axesA / axesB: the contracted axes (0-based), in   *)
+(* pairs.  Result shape: free axes of a, then free axes of b.              *)
+(***************************************************************************)
+FreeAxes(r, ax) == LET used == {ax[i] + 1 : i \in 1..Len(ax)} IN SortedSeq((1..r) \ used)
+ShapeAt(shape, axs) == [i \in 1..Len(axs) |-> shape[axs[i]]]
+
+ContractCells(S, ta, tb, axesA, axesB) ==
+    LET ra == Len(ta.shape) rb == Len(tb.shape)
+        fa == FreeAxes(ra, axesA) fb == FreeAxes(rb, axesB)
+        fsa == ShapeAt(ta.shape, fa) fsb == ShapeAt(tb.shape, fb)
+        csh == [i \in 1..Len(axesA) |-> ta.shape[axesA[i] + 1]]       \* contracted extents
+        osh == fsa \o fsb
+        coordA(oc, cc) == [a \in 1..ra |->
+                            IF \E i \in 1..Len(fa) : fa[i] = a THEN oc[CHOOSE i \in 1..Len(fa) : fa[i] = a]
+                            ELSE cc[CHOOSE i \in 1..Len(axesA) : axesA[i] + 1 = a]]
+        coordB(oc, cc) == [b \in 1..rb |->
+                            IF \E i \in 1..Len(fb) : fb[i] = b THEN oc[Len(fa) + (CHOOSE i \in 1..Len(fb) : fb[i] = b)]
+                            ELSE cc[CHOOSE i \in 1..Len(axesB) : axesB[i] + 1 = b]]
+        elem(k) == LET oc == CoordOf(k, osh)
+                   IN <<"dot", [j \in 1..Prod(csh) |->
+                          LET cc == CoordOf(j - 1, csh)
+                          IN <<S.heap[ta.cells[RankOf(coordA(oc, cc), ta.shape) + 1]],
+                               S.heap[tb.cells[RankOf(coordB(oc, cc), tb.shape) + 1]]>>]>>
+    IN [shape |-> osh, vals |-> [k \in 1..Prod(osh) |-> elem(k - 1)]]
+
+ContractOK(ta, tb, axesA, axesB) ==
+    /\ Len(axesA) = Len(axesB)
+    /\ ValidAxes(axesA, Len(ta.shape)) /\ ValidAxes(axesB, Len(tb.shape))
+    /\ \A i \in 1..Len(axesA) : ta.shape[axesA[i] + 1] = tb.shape[axesB[i] + 1]
+
+(* view a vector form (n), (n,1), (1,n) as the rank-1 vector of its elements *)
+IsVecShape(s) == Len(s) = 1 \/ (Len(s) = 2 /\ (s[1] = 1 \/ s[2] = 1))
+AsVec(t) == [shape |-> <<Len(t.cells)>>, cells |-> t.cells]
+
+(* kind: "MatMul", "MatVecMul", "Outer", "TensorMul" (with axes), "Dot" (dispatching), "Inner" and "Trace"
+   (these two return a value, not a tensor) *)
+ProductSpec(S, kind, a, b, axesA, axesB) ==
+    LET ta == S.live[a] tb == S.live[b]
+        ra == Len(ta.shape) rb == Len(tb.shape)
+        bad == [ok |-> FALSE, shape |-> <<>>, vals |-> <<>>]
+        mk(c, shp) == [ok |-> TRUE, shape |-> shp, vals |-> c.vals]
+    IN CASE kind = "MatMul" ->
+              IF ra = 2 /\ rb = 2 /\ ta.shape[2] = tb.shape[1]
+              THEN LET c == ContractCells(S, ta, tb, <<1>>, <<0>>) IN mk(c, c.shape) ELSE bad
+         [] kind = "MatVecMul" ->
+              IF ra = 2 /\ IsVecShape(tb.shape) /\ ta.shape[2] = Len(tb.cells)
+              THEN LET c == ContractCells(S, ta, AsVec(tb), <<1>>, <<0>>) IN mk(c, c.shape) ELSE bad
+         [] kind = "Outer" ->
+              IF IsVecShape(ta.shape) /\ IsVecShape(tb.shape)
+              THEN LET c == ContractCells(S, AsVec(ta), AsVec(tb), <<>>, <<>>) IN mk(c, c.shape) ELSE bad
+         [] kind = "Inner" ->
+              IF IsVecShape(ta.shape) /\ IsVecShape(tb.shape) /\ Len(ta.cells) = Len(tb.cells)
+              THEN LET c == ContractCells(S, AsVec(ta), AsVec(tb), <<0>>, <<0>>) IN mk(c, <<>>) ELSE bad
+         [] kind = "TensorMul" ->
+              IF ContractOK(ta, tb, axesA, axesB)
+              THEN LET c == ContractCells(S, ta, tb, axesA, axesB)
+                   IN mk(c, IF c.shape = <<>> THEN <<1>> ELSE c.shape) ELSE bad
+         [] kind = "Dot" ->
+              (* the documented dispatch *)
+              IF IsVecShape(ta.shape) /\ IsVecShape(tb.shape) THEN
+                   IF Len(ta.cells) = Len(tb.cells)
+                   THEN LET c == ContractCells(S, AsVec(ta), AsVec(tb), <<0>>, <<0>>) IN mk(c, <<>>) ELSE bad
+              ELSE IF ra = 2 /\ IsVecShape(tb.shape) THEN
+                   IF ta.shape[2] = Len(tb.cells)
+                   THEN LET c == ContractCells(S, ta, AsVec(tb), <<1>>, <<0>>) IN mk(c, c.shape) ELSE bad
+              ELSE IF IsVecShape(ta.shape) /\ rb = 2 THEN
+                   IF tb.shape[1] = Len(ta.cells)
+                   THEN LET c == ContractCells(S, AsVec(ta), tb, <<0>>, <<0>>) IN mk(c, c.shape) ELSE bad
+              ELSE IF ra = 2 /\ rb = 2 THEN
+                   IF ta.shape[2] = tb.shape[1]
+                   THEN LET c == ContractCells(S, ta, tb, <<1>>, <<0>>) IN mk(c, c.shape) ELSE bad
+              ELSE IF ra >= 1 /\ rb >= 2 /\ ta.shape[ra] = tb.shape[rb - 1]
+                   THEN LET c == ContractCells(S, ta, tb, <<ra - 1>>, <<rb - 2>>) IN mk(c, c.shape) ELSE bad
+
+ProductT(S, kind, a, b, axesA, axesB, mode, d) ==
+    LET p == ProductSpec(S, kind, a, b, axesA, axesB)
+    IN IF ~p.ok THEN Out(S, Res("free", FALSE, 0, <<>>, <<>>))   \* operand shapes do not fit: left to the library (it must not compute)
+       ELSE IF kind = "Inner" THEN Out(S, Res("ok", TRUE, 0, p.vals[1], <<>>))
+       ELSE Deliver(S, p.shape, "C", p.vals, mode, d, 0, "", TRUE)
+
+TraceT(S, h) ==
+    LET t == S.live[h]
+    IN IF Len(t.shape) # 2 THEN Free(S)
+       ELSE LET n == Min2(t.shape[1], t.shape[2])
+            IN Out(S, Res("ok", TRUE, 0, <<"fold", "add", [i \in 1..n |-> S.heap[t.cells[RankOf(<<i - 1, i - 1>>, t.shape) + 1]]]>>, <<>>))
+
+(***************************************************************************)
+(* Assembly: pure copies of cells into a fresh tensor (NumPy placement).   *)
+(***************************************************************************)
+(* the source (operand index, coordinate) of result coordinate c when concatenating shapes shs along axis ax (1-based) *)
+RECURSIVE ConcatSrc(_, _, _, _)
+ConcatSrc(shs, ax, c, i) ==
+    IF c[ax] < shs[i][ax] THEN <<i, c>>
+    ELSE ConcatSrc(shs, ax, [c EXCEPT ![ax] = @ - shs[i][ax]], i + 1)
+
+ConcatFits(shs, ax) ==
+    /\ \A i \in 1..Len(shs) : Len(shs[i]) = Len(shs[1])
+    /\ ax >= 1 /\ ax <= Len(shs[1])
+    /\ \A i \in 1..Len(shs) : \A d \in 1..Len(shs[1]) : d # ax => shs[i][d] = shs[1][d]
+
+ConcatT(S, hs, axis) ==
+    LET ts  == [i \in 1..Len(hs) |-> S.live[hs[i]]]
+        shs == [i \in 1..Len(hs) |-> ts[i].shape]
+        ax  == axis + 1
+    IN IF ~ConcatFits(shs, ax) THEN Err(S)
+       ELSE LET osh == [shs[1] EXCEPT ![ax] = SumSeq([i \in 1..Len(shs) |-> shs[i][ax]])]
+                vals == [k \in 1..Prod(osh) |->
+                           LET sc == ConcatSrc(shs, ax, CoordOf(k - 1, osh), 1)
+                           IN S.heap[ts[sc[1]].cells[RankOf(sc[2], shs[sc[1]]) + 1]]]
+                o == FreshResult(S, osh, "C", vals, "")
+            IN Out(o.S, [o.res EXCEPT !.ref = TRUE])
+
+StackT(S, hs, axis) ==
+    LET ts  == [i \in 1..Len(hs) |-> S.live[hs[i]]]
+        sh  == ts[1].shape
+        ax  == axis + 1
+    IN IF (\E i \in 1..Len(hs) : ts[i].shape # sh) \/ ax < 1 \/ ax > Len(sh) + 1 THEN Err(S)
+       ELSE LET osh == InsertAt(sh, ax, Len(hs))
+                vals == [k \in 1..Prod(osh) |->
+                           LET c == CoordOf(k - 1, osh)
+                           IN S.heap[ts[c[ax] + 1].cells[RankOf(RemoveAt(c, ax), sh) + 1]]]
+                o == FreshResult(S, osh, "C", vals, "")
+            IN Out(o.S, [o.res EXCEPT !.ref = TRUE])
+
+(* repeat along axis (0-based; -1: flatten first); reps: one count (broadcast) or one per element of the axis *)
+RECURSIVE RepSrc(_, _, _)
+RepSrc(reps, j, i) == IF j < reps[i] THEN i - 1 ELSE RepSrc(reps, j - reps[i], i + 1)
+
+RepeatT(S, h, axis, reps0, mode, d) ==
+    LET t0  == S.live[h]
+        t   == IF axis = -1 THEN [shape |-> <<Len(t0.cells)>>, cells |-> t0.cells] ELSE [shape |-> t0.shape, cells |-> t0.cells]
+        ax  == IF axis = -1 THEN 1 ELSE axis + 1
+    IN IF ax < 1 \/ ax > Len(t.shape) THEN Free(S)
+       ELSE LET n    == t.shape[ax]
+                reps == IF Len(reps0) = 1 THEN [i \in 1..n |-> reps0[1]] ELSE reps0
+            IN IF Len(reps) # n THEN Err(S)
+               ELSE IF SumSeq(reps) = 0 THEN Free(S)         \* an empty result: the library has no empty tensors
+               ELSE LET osh  == [t.shape EXCEPT ![ax] = SumSeq(reps)]
+                        vals == [k \in 1..Prod(osh) |->
+                                   LET c == CoordOf(k - 1, osh)
+                                   IN S.heap[t.cells[RankOf([c EXCEPT ![ax] = RepSrc(reps, c[ax], 1)], t.shape) + 1]]]
+                    IN Deliver(S, osh, "C", vals, mode, d, 0, "", TRUE)
+
+(***************************************************************************)
 (* The transition function.  op = [k, h, a] : kind, main handle, arguments *)
 (***************************************************************************)
 Apply(S, op) ==
@@ -414,6 +591,13 @@ Apply(S, op) ==
       [] op.k = "Arith"       -> ArithT(S, op.h, op.a[1], op.a[2], op.a[3], op.a[4], op.a[5])
       [] op.k = "Cmp"         -> CmpT(S, op.h, op.a[1], op.a[2], op.a[3], op.a[4], op.a[5], op.a[6] = 1)
       [] op.k = "Unary"       -> UnaryT(S, op.h, op.a[1], op.a[2], op.a[3], op.a[4], op.a[5])
+      [] op.k = "Reduce"      -> ReduceT(S, op.h, op.a[1], op.a[2])
+      [] op.k = "Arg"         -> ArgT(S, op.h, op.a[1], op.a[2])
+      [] op.k = "Product"     -> ProductT(S, op.a[1], op.h, op.a[2], op.a[3], op.a[4], op.a[5], op.a[6])
+      [] op.k = "Trace"       -> TraceT(S, op.h)
+      [] op.k = "Concat"      -> ConcatT(S, op.a[2], op.a[1])
+      [] op.k = "Stack"       -> StackT(S, op.a[2], op.a[1])
+      [] op.k = "Repeat"      -> RepeatT(S, op.h, op.a[1], op.a[2], op.a[3], op.a[4])
 
 Op(k, h, a) == [k |-> k, h |-> h, a |-> a]
 
